@@ -391,7 +391,22 @@ def r6_scalar_literals(ctx):
         ctx.form("value = self.dtype(value)" in [norm(x) for st in other for x in ast.walk(st) if isinstance(x, ast.Assign)], NB,
                  "BaseNode.cast_value", "other scalars are cast with the node's own type")
     s = norm(fn).replace("\n", " ")
-    ctx.form("if np.isscalar(value) and value in (None, Keyword.NONE): value = None" in s, NB, "BaseNode.cast_value", "none keyword and None denote a missing value")
+    # the keyword `none` (exactly, lower case) and None denote a missing value; any other text is a literal as written
+    pv_ = fn.args.args[1].arg if len(fn.args.args) > 1 else "value"
+    gates = [i for i in ast.walk(fn) if isinstance(i, ast.If) and len(i.body) == 1 and norm(i.body[0]) == f"{pv_} = None"]
+    whatn = "none keyword and None denote a missing value"
+    if len(gates) != 1:
+        ctx.form(False, NB, "BaseNode.cast_value", whatn, detail=f"{len(gates)} gates that set the value to None")
+    else:
+        for cellv, want_ in ((None, True), ("none", True), ("None", False), ("NONE", False), ("nonetheless", False), ("abc", False), ("", False)):
+            got_ = K.concrete_truth(gates[0].test, {pv_: cellv, "Keyword.NONE": "none", f"np.isscalar({pv_})": True, f"isinstance({pv_}, str)": isinstance(cellv, str)})
+            cl = f"{whatn}: literal {cellv!r} is {'missing' if want_ else 'kept as written'}"
+            if got_ is None:
+                ctx.form(False, NB, "BaseNode.cast_value", cl, detail=norm(gates[0].test)[:100])
+            elif got_ == want_:
+                ctx.holds(NB, "BaseNode.cast_value", cl)
+            else:
+                ctx.violated(NB, "BaseNode.cast_value", cl, detail=norm(gates[0].test)[:120], expected=f"np.isscalar({pv_}) and {pv_} in (None, Keyword.NONE)")
     # width / sign carried by every constructor of the typed value
     for f, cname, tname, kws in (("node_integer.py", "IntegerNode", "IntegerType", {"precision": "self.precision", "unsigned": "self.unsigned"}),
                                  ("node_float.py", "FloatNode", "FloatType", {"precision": "self.precision"})):
